@@ -432,32 +432,71 @@ def case_match_tags(case):
     return acc
 
 
-def zone_free(nodes, T, zone=False):
-    """no statically named include and no macro call inside an element a match template may
-    rewrite (tag in T), nor inside a match template body"""
+CLS = {'xml': 'markup', 'text': 'text'}
+
+
+def winfree(nodes, T, own):
+    """a stream whose rendering does not depend on the window of match templates in force
+    (Genshi.Incl.winfreeL)"""
+    for n in nodes:
+        k = n[0]
+        if k in ('call', 'select'):
+            return False
+        if k == 'elem':
+            if n[1] in T or not winfree(n[2], T, own):
+                return False
+        elif k == 'if':
+            if not winfree(n[2], T, own):
+                return False
+        elif k == 'for':
+            if not winfree(n[3], T, own):
+                return False
+        elif k == 'include':
+            if n[1][0] == 'static' and CLS.get(n[2], own) != 'text':
+                return False
+            if n[3] is not None and not winfree(n[3], T, own):
+                return False
+    return True
+
+
+def zone_target_ok(case, T, here, own, n):
+    """a statically named include inside a zone: what would be inlined for it (target, or the
+    fallback of a missing target) does not depend on the window (Genshi.Incl.zoneTargetOk)"""
+    h = n[1][1]
+    if h.startswith('/'):
+        return False
+    f = find_file(case, resolve(here, h))
+    if f is None:
+        return n[3] is None or winfree(n[3], T, own)
+    return 'body' in f and winfree(f['body'], T, f['kind'])
+
+
+def zone_free(case, nodes, T, here, own, zone=False):
+    """inside an element a match template may rewrite (tag in T) and inside a match template
+    body: no macro call, a statically named include only of window-independent content"""
     for n in nodes:
         k = n[0]
         if k == 'call' and zone:
             return False
         if k == 'include':
-            if zone and n[1][0] == 'static':
+            if zone and n[1][0] == 'static' and not zone_target_ok(case, T, here, own, n):
                 return False
-            if n[3] is not None and not zone_free(n[3], T, False):
+            if n[3] is not None and not zone_free(case, n[3], T, here, own, False):
                 return False
         elif k == 'elem':
-            if not zone_free(n[2], T, zone or n[1] in T):
+            if not zone_free(case, n[2], T, here, own, zone or n[1] in T):
                 return False
         elif k == 'if':
-            if not zone_free(n[2], T, zone):
+            if not zone_free(case, n[2], T, here, own, zone):
                 return False
         elif k == 'for':
-            if not zone_free(n[3], T, zone):
+            if not zone_free(case, n[3], T, here, own, zone):
                 return False
         elif k == 'def':
-            if not zone_free(n[2], T, False):
+            if not zone_free(case, n[2], T, here, own, False):
                 return False
         elif k == 'match':
-            if not zone_free(n[2], T, True):
+            if not zone_free(case, n[2], T, here, own, True):
                 return False
     return True
 
@@ -492,7 +531,7 @@ def in_hypothesis(case):
     T = case_match_tags(case)
     for d in case['dirs']:
         for path, f in d:
-            if not zone_free(f['body'], T) or not cls_ok(case, f['body'], path, f['kind']):
+            if not zone_free(case, f['body'], T, path, f['kind']) or not cls_ok(case, f['body'], path, f['kind']):
                 return False
             if f['kind'] == 'text' and not text_ok(f['body']):
                 return False          # a text template that calls a macro
@@ -850,6 +889,8 @@ class Spec(object):
                         raise SpecError('TemplateSyntaxError')
                     self.stat('include-found')
                     self.stat('include-found-' + tag)
+                    if (lo, hi) != (0, None):
+                        self.stat('include-found-%s-under-restricted-window' % tag)
                     if self.frames:
                         self.stat('include-inside-loop')
                     if depth > 0:
@@ -947,6 +988,9 @@ class Gen(object):
         # diverge, the second cannot be observed by a test run
         k = rng.randrange(1, len(names) + 1)
         self.lower = set(names[k:])
+        # "leaf" fragments (markup, lower): plain content without matchable elements; they may be
+        # included by name inside elements that match templates rewrite
+        self.leaves = set(n for n in names[k:] if kind_of(n) == 'markup' and rng.random() < 0.5)
         self.use_match = rng.random() < (0.9 if self.zone else 0.6)
         self.macros = ['m0', 'm1'] if rng.random() < 0.5 else []
         self.data = {
@@ -1002,6 +1046,8 @@ class Gen(object):
         self.here = nm
         self.kind = kind_of(nm)
         rng = self.rng
+        if nm in self.leaves:
+            return [['elem', rng.choice(PLAIN_TAGS), self.content(2, tags=PLAIN_TAGS)]]
         pre = []
         # a "library" prelude: macros and match templates registered before the rest of the file
         # (and, when this file is included early, before the rest of the includer)
@@ -1070,18 +1116,22 @@ class Gen(object):
             return ['include', ['dyn', parts], parse, fb]
         return ['include', ['static', href], parse, fb]
 
-    def content(self, depth):
-        """plain content of a matchable element: text, expressions, elements"""
+    def content(self, depth, tags=None):
+        """plain content of a matchable element: text, expressions, elements — and now and then a
+        leaf fragment included by name"""
         rng = self.rng
+        tags = tags or (PLAIN_TAGS + MATCH_TAGS)
         out = []
         for _ in range(rng.randrange(0, 4)):
             r = rng.random()
-            if r < 0.45:
+            if r < 0.4:
                 out.append(['text', rand_text(rng)])
-            elif r < 0.6:
+            elif r < 0.55:
                 out.append(['var', rng.choice(['s0', 's1'])])
+            elif r < 0.7 and self.leaves and self.here not in self.leaves and self.kind == 'markup':
+                out.append(['include', ['static', rel_href(rng, self.here, rng.choice(sorted(self.leaves)))], None, None])
             elif depth > 0:
-                out.append(['elem', rng.choice(PLAIN_TAGS + MATCH_TAGS), self.content(depth - 1)])
+                out.append(['elem', rng.choice(tags), self.content(depth - 1, tags)])
         return out
 
     def match_body(self, depth, svars, lvars, in_fb):
